@@ -61,6 +61,16 @@ def opsCtl (st : Option (Cfg × St)) (args : List String) : Option (Option (Cfg 
   | ["astep", dt, rs, ri], some (C, s) => do
       let s' := stepA C s (← parseRat? dt) { sensor := ← parseBits? rs, iswitch := ← parseBits? ri }
       some (some (C, s'), showSt C s')
+  | ["swfail", t], some (C, s) => do
+      let s' := spreadSec C s (← parseRat? t)
+      some (some (C, s'), showSt C s')
+  -- an increment in which the main controller had a software failure (recovery time t): hand-over, then the control step
+  | ["sstep", t, dt], some (C, s) => do
+      let s' := step C (spreadSec C s (← parseRat? t)) (← parseRat? dt)
+      some (some (C, s'), showSt C s')
+  | ["sastep", t, dt, rs, ri], some (C, s) => do
+      let s' := stepA C (spreadSec C s (← parseRat? t)) (← parseRat? dt) { sensor := ← parseBits? rs, iswitch := ← parseBits? ri }
+      some (some (C, s'), showSt C s')
   | ["reset"], some (C, _) => some (some (C, St.init C), showSt C (St.init C))
   | ["secout", k], some (C, s) => do
       let s' := secDisconnect C s (← k.toNat?)
